@@ -102,12 +102,15 @@ Explicit(cl) == {cl[i].n : i \in 1..Len(cl)}
 Results(tab, cl) == [i \in 1..Len(cl) |-> Assign(tab, cl[i].n, cl[i].r, {})]
 CmdOK(tab, cl) == \A i \in 1..Len(cl) : Results(tab, cl)[i].ok
 
-(* Declarative reading.  The -D assignments of one command are a set: an option the user set     *)
-(* explicitly has the value given for it; an option that is only the replacement of a deprecated  *)
-(* option that was set gets the forwarded value - the chain old -> new -> ... is followed until   *)
-(* it reaches an option the user set explicitly, whose own assignment takes over from there;      *)
-(* every other option keeps its default.  (The whole chain must still accept the value: "assuming *)
-(* they accept the same values".)                                                                  *)
+(* Declarative reading.  The -D assignments of one command are a set.  An option that only one   *)
+(* assignment reaches has the value that assignment gives it: the value given for it explicitly,  *)
+(* or the value forwarded along the chain old -> new -> ... of a deprecated option that was set;  *)
+(* every other option keeps its default.  (The whole chain must accept the value: "assuming they  *)
+(* accept the same values".)                                                                      *)
+(* When the user sets `new` explicitly AND sets a deprecated `old` that forwards to `new`, both    *)
+(* are explicit user assignments that reach `new` and the documentation does not say which wins:  *)
+(* the value is the explicit one (StrictFinal: the chain stops at an explicitly set option, whose  *)
+(* own assignment takes over from there) or the forwarded one - nothing else (AllowedFinal).       *)
 ChainOf(res) == [j \in 1..Len(res.sets) |-> res.sets[Len(res.sets) + 1 - j]]      \* assigned option first
 RECURSIVE KeptFrom(_, _, _)
 KeptFrom(ch, j, stop) == IF j > Len(ch) \/ ch[j].n \in stop THEN <<>> ELSE <<ch[j]>> \o KeptFrom(ch, j + 1, stop)
@@ -116,12 +119,16 @@ Kept(tab, cl, i) == LET ch == ChainOf(Results(tab, cl)[i]) IN
                     IF ch = <<>> THEN <<>> ELSE <<ch[1]>> \o KeptFrom(ch, 2, Explicit(cl))
 KeptValues(tab, cl, i, name) == {Kept(tab, cl, i)[j].v : j \in {x \in 1..Len(Kept(tab, cl, i)) : Kept(tab, cl, i)[x].n = name}}
 
-AllowedFinal(tab, cl, name) ==
+StrictFinal(tab, cl, name) ==
     LET own == {i \in 1..Len(cl) : cl[i].n = name}
         fwd == {i \in 1..Len(cl) : cl[i].n # name /\ KeptValues(tab, cl, i, name) # {}}
     IN IF own # {} THEN UNION {KeptValues(tab, cl, i, name) : i \in own}
        ELSE IF fwd # {} THEN UNION {KeptValues(tab, cl, i, name) : i \in fwd}
        ELSE {Lookup(tab, name).def}
+\* values that a chain cut short at an explicitly set option would have written to `name`
+CutValues(tab, cl, name) ==
+    UNION {Written(Results(tab, cl)[i], name) : i \in {j \in 1..Len(cl) : cl[j].n # name /\ KeptValues(tab, cl, j, name) = {}}}
+AllowedFinal(tab, cl, name) == StrictFinal(tab, cl, name) \cup CutValues(tab, cl, name)
 AllNotes(tab, cl) == UNION {Range(Results(tab, cl)[i].notes) : i \in 1..Len(cl)}
 
 \* ---- operational readings: the assignments applied one after the other to a value map ----------------------
@@ -145,7 +152,7 @@ Overtaken(tab, cl, name) ==
     \E j \in 1..Len(cl) :
         /\ Written(Results(tab, cl)[j], name) # {} /\ KeptValues(tab, cl, j, name) = {}
         /\ \A i \in (j + 1)..Len(cl) : Written(Results(tab, cl)[i], name) = {}
-        /\ Written(Results(tab, cl)[j], name) # AllowedFinal(tab, cl, name)
+        /\ Written(Results(tab, cl)[j], name) # StrictFinal(tab, cl, name)
 
 \* ---- laws about a single assignment -------------------------------------------------------------------
 \* D1: whatever is stored satisfies the declaration of the option it is stored in (never silently out of domain)
